@@ -1,7 +1,8 @@
 // ---- lookup stand-in: contracts of the entry points used by the handler (recv_finished is proved in unit `lookup`)
 pub struct TableLookup { pub g: u64 }
 impl TableLookup {
-    // ASSUMED contract (lookup.rs:123-243 is outside Verus' subset): a search only sends queries, yields peers, marks nodes and uses its timeouts
+    // proved in unit `lookup` (recv_response / recv_timeout on their real text, the node selection in the middle of recv_response abstracted):
+    // a search only sends queries, yields peers, marks nodes and uses its timeouts
     #[verifier::external_body]
     pub fn recv_response(&mut self, node: Node, trans_id: &TransactionID, msg: Response, socket: &Socket, timer: &mut Timer<ScheduledTaskCheck>, Tracked(tr): Tracked<&mut Trace>) -> (r: ActionStatus)
         requires old(timer).wf()
@@ -19,7 +20,8 @@ impl TableLookup {
     { unimplemented!() }
     #[verifier::external_body]
     pub fn completed(&self) -> bool { unimplemented!() }
-    // ASSUMED contract (lookup.rs:66-121): creating a search is the LookupStart event, followed by its first round of queries
+    // proved in unit `lookup` (TableLookup::new on its real text; the node-list helpers insert_sorted_node / pick_initial_nodes are assumed there):
+    // creating a search is the (ghost) LookupStart event, followed by its first round of queries
     #[verifier::external_body]
     pub fn new(target_id: InfoHash, will_announce: bool, tx: mpsc::UnboundedSender<SocketAddr>, id_generator: MIDGenerator,
                table: Arc<Mutex<RoutingTable>>, socket: &Socket, timer: &mut Timer<ScheduledTaskCheck>, Tracked(tr): Tracked<&mut Trace>) -> (r: TableLookup)
